@@ -56,46 +56,10 @@ def optionalDupOuter (A : Algebra) (env : Env) (q : Query) : Bool :=
   | .ok plan => (optionalOuters A env plan).any hasDup
   | .error _ => false
 
-/-- the CartesianProduct nodes of a plan whose two sides both produce a variable of the same name -/
-def sharedProduct : Plan → Bool
-  | .cartesianProduct l r =>
-    (Compile.outKinds l).any (fun (k, _) => ((Compile.outKinds r).lookup k).isSome) || sharedProduct l || sharedProduct r
-  | .optionalWhereFixup o f _ => sharedProduct o || sharedProduct f
-  | .matchOut i .. => sharedProduct i
-  | .matchIn i .. => sharedProduct i
-  | .matchUndirected i .. => sharedProduct i
-  | .filter i _ => sharedProduct i
-  | .project i _ => sharedProduct i
-  | .aggregate i _ _ => sharedProduct i
-  | .orderBy i _ => sharedProduct i
-  | .skip i _ => sharedProduct i
-  | .limit i _ => sharedProduct i
-  | .distinct i => sharedProduct i
-  | .unwind i _ _ => sharedProduct i
-  | .indexSeek _ _ _ _ fb => sharedProduct fb
-  | _ => false
-
-/-- C11-unanchored-bound-variable: a pattern that mentions an already bound variable, but neither at its first
-    nor (after re-anchoring) at its last node, is planned as an independent component joined by a
-    CartesianProduct: the bound variable does not constrain it -/
-def unanchoredBound (q : Query) : Bool :=
-  match Compile.compile q with
-  | .ok plan => sharedProduct plan
-  | .error _ => false
-
-def projs (q : Query) : List (Proj × Option Expr × Bool) :=
-  q.filterMap fun | .with_ p w => some (p, w, true) | .return_ p => some (p, none, false) | _ => none
-
-/-- C11-distinct-after-limit: DISTINCT together with SKIP or LIMIT (Distinct is planned above Limit) -/
-def distinctWindow (q : Query) : Bool :=
-  (projs q).any fun (p, _, _) => p.distinct && (p.skip.isSome || p.limit.isSome)
-
 def triggers (A : Algebra) (env : Env) (q : Query) : List String :=
   (if parallelReuse env.g q then ["C11-parallel-rel-reuse"] else []) ++
   (if crossPattern q then ["C11-cross-pattern-rel-uniqueness"] else []) ++
   (if anonRelProps q then ["C11-anon-rel-props-ignored"] else []) ++
-  (if unanchoredBound q then ["C11-unanchored-bound-variable"] else []) ++
-  (if optionalDupOuter A env q then ["C11-optional-duplicate-outer-rows"] else []) ++
-  (if distinctWindow q then ["C11-distinct-after-limit"] else [])
+  (if optionalDupOuter A env q then ["C11-optional-duplicate-outer-rows"] else [])
 
 end Nervus.Cy.Findings
